@@ -2957,6 +2957,8 @@ static int scan_triple_delim_string(struct scanner_s *scanner) {
             } else {
                 delim_count = 0;
                 if (CLASS_OF(c, scanner) == EOL_CLASS) {
+                    /* the terminator has already been counted in the column number, but it is not part of the line */
+                    POSN_INCCOLUMN(scanner, -1);
                     HANDLE_EOL(scanner, c, sol);
                 } else {
                     sol = 0;
@@ -3023,6 +3025,8 @@ static int scan_text(struct scanner_s *scanner) {
                     }
                     break;
                 case EOL_CLASS:
+                    /* the terminator has already been counted in the column number, but it is not part of the line */
+                    POSN_INCCOLUMN(scanner, -1);
                     /* HANDLE_EOL(scanner, c, sol); */
                     do {
                         struct scanner_s *_s_eol = (scanner);
